@@ -212,6 +212,36 @@ PROPS = {
         "level_note": "Trusted: harness/oracle legality for Engine.Move; panics are caught in-process and reported with the input.",
         "technique": "property-based testing (rapid) with grammar-aware string generators + native go fuzzing (thorough), in-target round-trip and legality oracles",
     },
+    "C03": {
+        "title": "alpha-beta = exact minimax, sound PV, board handed back",
+        "run": "^TestC03_",
+        "level": "exploration",
+        "shards": 16,
+        "timeout": 600,
+        "thorough_scale": 10,
+        "thorough_timeout": 2400,
+        "rule": "C03/minimax: (root = set-up position + generated history of 0-40 plies incl. shuffled histories with near-repetitions "
+                "and high clocks, and K+pieces v K mating endings with the defending king near the edge; configuration in {material, "
+                "synthetic position hash evaluator, no-under-promotion exploration, capture quiescence, BERNSTEIN plausible moves "
+                "limit 1-9 + evaluation, TUROCHAMP evaluation + considerable-moves quiescence, SARGON points + one-ply-if-checked}; "
+                "depth 1..6 chosen from the measured branching so that the reference stays under its node budget). The score of "
+                "AlphaBeta.Search(ctx, EmptyContext, board, depth) must equal the value of an exhaustive negamax written on the oracle "
+                "game (no pruning; drawn node = 0 by the oracle's rules, no legal move = lost/0, one ply added to mate distances going "
+                "up, explored moves and leaf values obtained by calling the repository's exploration predicate and evaluator on a "
+                "board kept in lock-step) under the specification order; PV legal in sequence, length <= depth, first move's "
+                "reference value = root value, empty only if the root has no (explored) legal move or is drawn; everything the board "
+                "reports identical before/after (truthful lazy adjudication of a root without moves allowed) and every legal root move "
+                "played afterwards reports the same as on a board never searched. Non-trivial = distinct (root, history, config, depth) "
+                "with depth >= 3, or a mate / stalemate / draw node inside the tree, or a mate-valued root. Over-budget and sticky-"
+                "draw roots are discarded and counted. evaluations = searches compared.",
+        "assumptions": COMMON_ASSUMPTIONS + ["roots whose draw flag was set by an earlier position of the game (not the current one) are skipped: the property leaves their value open",
+                                             "the reference calls the repository's evaluator/exploration functions (the property says 'same explored moves, same leaf evaluation'); rules, draw detection, score order and tree walk are independent"],
+        "level_text": "Exploration: thousands of searches per quick run, each compared with an independent exhaustive negamax; "
+                      "the generator is aimed at mate-distance arithmetic (depth 4-6 in sparse endings), draws inside the tree and "
+                      "selective explorations, which is where window/ordering errors live.",
+        "level_note": "Trusted: harness/refsearch (negamax + specification order), harness/oracle game rules. Depth is bounded by the exhaustive reference (2-3 in middlegames, up to 6 in sparse endings).",
+        "technique": "property-based testing (rapid): differential against an independent exhaustive reference search; PV validity predicate; before/after state invariant",
+    },
 }
 
 # Properties not claimed, with the reason (kept current).
